@@ -202,3 +202,28 @@ Definition ok_C04 (c : lcase) (o : obs) : bool :=
    then forallb (fun k => existsb (split_ok4 (l_pkts c) (l_gop c) ids (o_out k))
                                   (seq 0 (S (length (o_out k))))) (o_cons o)
    else true).
+
+(* ---------- C02 ---------- *)
+Definition is_close (t : tid) : bool := match t with TClose => true | _ => false end.
+(* [a] is a prefix of [b] *)
+Fixpoint prefixZ (a b : list Z) : bool :=
+  match a with
+  | [] => true
+  | x :: a' => match b with [] => false | y :: b' => (x =? y) && prefixZ a' b' end
+  end.
+(* the joiner was handed (the beginning of) the join replay after some number r of published
+   packets - the specification [spec_snap] of Model/Cache.v applied to the first r packets -
+   followed by the published packets from index r on, one after the other: no gap, no repeat *)
+Definition join_ok (pkts : list pkt) (gopon : bool) (ids out : list Z) : bool :=
+  existsb (fun r => prefixZ out (map p_id (spec_snap gopon (firstn r pkts)) ++ skipn r ids))
+          (seq 0 (S (length pkts))).
+
+(* guards: the stream is not closed during the schedule (hypothesis of C02_join_contiguous) and the
+   queue limit is so large that nothing can be dropped for backlog *)
+Definition ok_C02 (c : lcase) (o : obs) : bool :=
+  let ids := map p_id (l_pkts c) in
+  Nat.eqb (length (o_cons o)) (l_n c) &&
+  (if forallb (fun t => negb (is_close t)) (l_sched c) &&
+      (2 * length (l_pkts c) + 4 <=? l_maxq c)%nat
+   then forallb (fun k => join_ok (l_pkts c) (l_gop c) ids (o_out k)) (o_cons o)
+   else true).
